@@ -55,7 +55,7 @@ func checkC17(p *core.Program, r *core.Report) {
 	r.Rule(R4, "ReportMdnsEntries is not invoked from a per-event goroutine")
 
 	mgr := p.Named("mdns", "MdnsManager")
-	proc := p.Method("mdns", "MdnsManager", "processMdnsEntry")
+	proc := resolverCallback(p)
 	fEntries := p.Field("mdns", "MdnsManager", "entries")
 	fSki := p.Field("mdns", "MdnsManager", "ski")
 	mReport := p.IfaceMethod("api", "MdnsReportInterface", "ReportMdnsEntries")
@@ -490,4 +490,26 @@ func checkSnapshotCopy(p *core.Program, r *core.Report, R3 string, sites []core.
 			r.Fail(R3, key, p.Pos(s.In.Pos()), "the hub is handed the live map or live entries instead of a snapshot copy")
 		}
 	}
+}
+
+// resolverCallback finds the manager method handed to providers as api.MdnsResolveCB (by signature, not by name).
+func resolverCallback(p *core.Program) *ssa.Function {
+	cb := p.Named("api", "MdnsResolveCB")
+	if cb == nil {
+		return nil
+	}
+	want, ok := cb.Underlying().(*types.Signature)
+	if !ok {
+		return nil
+	}
+	var found *ssa.Function
+	for _, fn := range p.FuncsOf("mdns") {
+		if fn.Signature.Recv() == nil || !core.TypeIs(fn.Signature.Recv().Type(), core.ModulePath+"/mdns", "MdnsManager") {
+			continue
+		}
+		if types.Identical(types.NewSignatureType(nil, nil, nil, fn.Signature.Params(), fn.Signature.Results(), fn.Signature.Variadic()), want) {
+			found = fn
+		}
+	}
+	return found
 }
